@@ -56,39 +56,69 @@ abbrev Env := Name → Loc → Prop
 
 def Env.set (env : Env) (x : Name) (P : Loc → Prop) : Env := fun y l => if y = x then P l else env y l
 
-/-- Big-step execution relative to the set `C` of caller-owned locations, collecting the written locations.
+/-- What the caller's names reach after a call of a function with parameters `params` on arguments `args`: every name
+    keeps what it reached and, if it was (part of) an argument, may additionally reach whatever the corresponding
+    parameter reaches when the callee exits (the callee may have stored something into a container it was handed). -/
+def Env.afterCall (env envc' : Env) (params : List Name) (args : List (List Name)) : Env :=
+  fun y l => env y l ∨ ∃ p ys, (p, ys) ∈ params.zip args ∧ y ∈ ys ∧ envc' p l
+
+/-- after an operation without a rule on `ys`: each of `ys` may additionally reach what any of them reached -/
+def Env.afterUnknown (env : Env) (ys : List Name) : Env :=
+  fun y l => env y l ∨ (y ∈ ys ∧ ∃ z, z ∈ ys ∧ env z l)
+
+/-- Big-step execution relative to the set `C` of caller-owned locations, collecting the written locations; the last
+    index says whether the statement completed (`true`) or was left by an exception (`false`).
     Every rule is an over-approximation of the Python/NumPy operation it stands for:
     a fresh array is not caller-owned; an alias reaches only what its sources reach (or non-caller arrays);
     a write through `x` hits only locations reachable through `x`; a call runs the callee's body in a frame
-    in which only the parameters are bound, each to (part of) what its argument reaches. -/
-inductive Exec (C : Loc → Prop) (tbl : Table) : Stmt → Env → Env → (Loc → Prop) → Prop
+    in which only the parameters are bound, each to (part of) what its argument reaches, and afterwards the argument
+    names may reach what the parameters reach (`Env.afterCall`).
+    Abnormal termination: any statement may raise before doing anything (`abort`), an in-place operation or an
+    operation without a rule may raise after writing part of what it may write, an exception in a callee, in the
+    head of a sequence or in a loop body propagates; nothing is executed after it. -/
+inductive Exec (C : Loc → Prop) (tbl : Table) : Stmt → Env → Env → (Loc → Prop) → Bool → Prop
   | fresh (x env) (P : Loc → Prop) (hP : ∀ l, P l → ¬ C l) :
-      Exec C tbl (.fresh x) env (env.set x P) (fun _ => False)
+      Exec C tbl (.fresh x) env (env.set x P) (fun _ => False) true
   | alias (x ys keep env) (P : Loc → Prop)
       (hP : ∀ l, P l → (∃ y, y ∈ ys ∧ env y l) ∨ (keep = true ∧ env x l) ∨ ¬ C l) :
-      Exec C tbl (.alias x ys keep) env (env.set x P) (fun _ => False)
+      Exec C tbl (.alias x ys keep) env (env.set x P) (fun _ => False) true
   | unknown (x ys env) (P W : Loc → Prop)
       (hW : ∀ l, W l → ∃ y, y ∈ ys ∧ env y l)
       (hP : ∀ l, P l → (∃ y, y ∈ ys ∧ env y l) ∨ ¬ C l) :
-      Exec C tbl (.unknown x ys) env (env.set x P) W
+      Exec C tbl (.unknown x ys) env ((env.afterUnknown ys).set x P) W true
   | write (x env) (W : Loc → Prop) (hW : ∀ l, W l → env x l) :
-      Exec C tbl (.write x) env env W
+      Exec C tbl (.write x) env env W true
   | call (x f args env d) (envc envc' : Env) (wc : Loc → Prop) (hl : lookup tbl f = some d)
       (hbind : ∀ p l, envc p l → ∃ ys, (p, ys) ∈ d.params.zip args ∧ ∃ y, y ∈ ys ∧ env y l)
-      (hb : Exec C tbl d.body envc envc' wc) :
-      Exec C tbl (.call x f args) env (env.set x (envc' RET)) wc
+      (hb : Exec C tbl d.body envc envc' wc true) :
+      Exec C tbl (.call x f args) env ((env.afterCall envc' d.params args).set x (envc' RET)) wc true
   | callUnknown (x f args env) (P W : Loc → Prop) (hl : lookup tbl f = none)
       (hW : ∀ l, W l → ∃ y, y ∈ args.flatten ∧ env y l)
       (hP : ∀ l, P l → (∃ y, y ∈ args.flatten ∧ env y l) ∨ ¬ C l) :
-      Exec C tbl (.call x f args) env (env.set x P) W
-  | seqNil (env) : Exec C tbl (.seq []) env env (fun _ => False)
-  | seqCons (s ss e1 e2 e3 w1 w2) : Exec C tbl s e1 e2 w1 → Exec C tbl (.seq ss) e2 e3 w2 →
-      Exec C tbl (.seq (s :: ss)) e1 e3 (fun l => w1 l ∨ w2 l)
-  | brL (a b e1 e2 w) : Exec C tbl a e1 e2 w → Exec C tbl (.branch a b) e1 e2 w
-  | brR (a b e1 e2 w) : Exec C tbl b e1 e2 w → Exec C tbl (.branch a b) e1 e2 w
-  | loop0 (b env) : Exec C tbl (.loop b) env env (fun _ => False)
-  | loopS (b e1 e2 e3 w1 w2) : Exec C tbl b e1 e2 w1 → Exec C tbl (.loop b) e2 e3 w2 →
-      Exec C tbl (.loop b) e1 e3 (fun l => w1 l ∨ w2 l)
+      Exec C tbl (.call x f args) env ((env.afterUnknown args.flatten).set x P) W true
+  | seqNil (env) : Exec C tbl (.seq []) env env (fun _ => False) true
+  | seqCons (s ss e1 e2 e3 w1 w2 fin) : Exec C tbl s e1 e2 w1 true → Exec C tbl (.seq ss) e2 e3 w2 fin →
+      Exec C tbl (.seq (s :: ss)) e1 e3 (fun l => w1 l ∨ w2 l) fin
+  | brL (a b e1 e2 w fin) : Exec C tbl a e1 e2 w fin → Exec C tbl (.branch a b) e1 e2 w fin
+  | brR (a b e1 e2 w fin) : Exec C tbl b e1 e2 w fin → Exec C tbl (.branch a b) e1 e2 w fin
+  | loop0 (b env) : Exec C tbl (.loop b) env env (fun _ => False) true
+  | loopS (b e1 e2 e3 w1 w2 fin) : Exec C tbl b e1 e2 w1 true → Exec C tbl (.loop b) e2 e3 w2 fin →
+      Exec C tbl (.loop b) e1 e3 (fun l => w1 l ∨ w2 l) fin
+  -- abnormal termination
+  | abort (s env) : Exec C tbl s env env (fun _ => False) false
+  | writeAbort (x env) (W : Loc → Prop) (hW : ∀ l, W l → env x l) :
+      Exec C tbl (.write x) env env W false
+  | unknownAbort (x ys env) (W : Loc → Prop) (hW : ∀ l, W l → ∃ y, y ∈ ys ∧ env y l) :
+      Exec C tbl (.unknown x ys) env (env.afterUnknown ys) W false
+  | callAbort (x f args env d) (envc envc' : Env) (wc : Loc → Prop) (hl : lookup tbl f = some d)
+      (hbind : ∀ p l, envc p l → ∃ ys, (p, ys) ∈ d.params.zip args ∧ ∃ y, y ∈ ys ∧ env y l)
+      (hb : Exec C tbl d.body envc envc' wc false) :
+      Exec C tbl (.call x f args) env (env.afterCall envc' d.params args) wc false
+  | callUnknownAbort (x f args env) (W : Loc → Prop) (hl : lookup tbl f = none)
+      (hW : ∀ l, W l → ∃ y, y ∈ args.flatten ∧ env y l) :
+      Exec C tbl (.call x f args) env (env.afterUnknown args.flatten) W false
+  | seqAbort (s ss e1 e2 w1) : Exec C tbl s e1 e2 w1 false → Exec C tbl (.seq (s :: ss)) e1 e2 w1 false
+  | loopAbort (b e1 e2 w1) : Exec C tbl b e1 e2 w1 false → Exec C tbl (.loop b) e1 e2 w1 false
 
 /-! ## the analysis
 
@@ -106,6 +136,16 @@ def subset (a b : TSet) : Bool := (a ||| b) == b
 def maskOf : List Name → TSet
   | [] => 0
   | x :: xs => insertN x (maskOf xs)
+
+def insertAll : List Name → TSet → TSet
+  | [], T => T
+  | y :: ys, T => insertAll ys (insertN y T)
+
+/-- after a call: the names of every argument whose parameter is tainted when the callee exits (mask `Tc`) become
+    tainted (the callee may have stored a caller-owned array into a container it was handed) -/
+def taintBack (Tc : TSet) : List Name → List (List Name) → TSet → TSet
+  | p :: ps, a :: as, T => taintBack Tc ps as (if memN p Tc then insertAll a T else T)
+  | _, _, T => T
 
 /-- parameters whose argument mentions a tainted name -/
 def taintedParams (T : TSet) : List Name → List (List Name) → TSet
@@ -139,7 +179,9 @@ def analyze (tbl : Table) : Nat → Stmt → TSet → Option TSet
         if taintedParams T d.params args == 0 then some (removeN x T)
         else
           match analyze tbl n d.body (taintedParams T d.params args) with
-          | some T' => if memN RET T' then some (insertN x T) else some (removeN x T)
+          | some T' =>
+            if memN RET T' then some (insertN x (taintBack T' d.params args T))
+            else some (removeN x (taintBack T' d.params args T))
           | none => none
   | _ + 1, .seq [], T => some T
   | n + 1, .seq (s :: ss), T =>
